@@ -3,6 +3,7 @@
 package status
 
 import (
+	"os"
 	"sync"
 	"testing"
 
@@ -120,6 +121,59 @@ func TestVerifC11Reporter(t *testing.T) {
 			out.Linef("nt")
 			out.Linef("stat conc 1")
 		}
+		out.Linef("end")
+		out.Flush()
+	}
+	// race mode: ReportOKIfStarting against a concurrent non-OK report on the SAME instance. Nobody reports OK
+	// explicitly, so (atomic reports) every delivered OK must directly follow Starting — C11_auto_ok_after_starting.
+	raceN := 20000
+	if vThorough() {
+		raceN = 200000
+	}
+	if _, replay := os.LookupEnv("VERIF_REPLAY_CASE"); !replay {
+		out.Linef("case 2000000 mode=race")
+		others := []componentstatus.Status{componentstatus.StatusRecoverableError, componentstatus.StatusRecoverableError,
+			componentstatus.StatusPermanentError, componentstatus.StatusStopping}
+		bad := 0
+		for it := 0; it < raceN; it++ {
+			id := &componentstatus.InstanceID{}
+			var mu sync.Mutex
+			var evs []componentstatus.Status
+			rep := NewReporter(func(_ *componentstatus.InstanceID, ev *componentstatus.Event) {
+				mu.Lock()
+				evs = append(evs, ev.Status())
+				mu.Unlock()
+			}, func(error) {})
+			rep.ReportStatus(id, componentstatus.NewEvent(componentstatus.StatusStarting))
+			var wg sync.WaitGroup
+			start := make(chan struct{})
+			wg.Add(2)
+			go func() { defer wg.Done(); <-start; rep.ReportOKIfStarting(id) }()
+			go func() {
+				defer wg.Done()
+				<-start
+				rep.ReportStatus(id, componentstatus.NewEvent(others[it%len(others)]))
+			}()
+			close(start)
+			wg.Wait()
+			okAfterOther := false
+			for k, e := range evs {
+				if e == componentstatus.StatusOK && (k == 0 || evs[k-1] != componentstatus.StatusStarting) {
+					okAfterOther = true
+				}
+			}
+			if okAfterOther || it < 3 {
+				for _, e := range evs {
+					out.Linef("tr ev %d %d", it, int(e))
+				}
+			}
+			if okAfterOther && bad < 3 {
+				bad++
+				out.Linef("viol sig=C11/reporter/auto-ok-not-from-starting-under-race iteration=%d events=%v", it, evs)
+			}
+		}
+		out.Linef("nt")
+		out.Linef("stat race_iterations %d", raceN)
 		out.Linef("end")
 		out.Flush()
 	}
